@@ -6,7 +6,7 @@ coq/theory/LaplaceModel.v filled with the formulas as written in the source.
 
 Translated (arithmetic, as written):
   LaplaceTransformer.term            `return const / s` (expr == 1), `return const / (s - arg)` (exp(alpha t)),
-                                     the sifting branch DiracDelta(a t + b) * v(..): const * v(t0) * exp(-s t0) / abs(scale)
+                                     the sifting branch DiracDelta(a t + b) * v(..) (plain delta only): const * v(t0) * exp(-s t0) / abs(scale)
   LaplaceTransformer.sin_cos         the cos -> phi + pi/2 rewrite, tau = -zeta (negative -> 0), phi += omega*tau,
                                      the expression E, the factors exp(-tau s), exp(alpha tau), exp(beta),
                                      and every `if len(factors) > <n>: raise` guard (-> gen_sc_guard)
@@ -261,7 +261,7 @@ class Translator:
             fail(fn, 'unexpected AppliedUndef branch')
         sb = und[0].body[0]
         want_test = N('expr.is_Mul and len(expr.args) == 2 and isinstance(expr.args[0], sym.DiracDelta) and '
-                      'isinstance(expr.args[1], (AppliedUndef, sym.Subs))')
+                      'len(expr.args[0].args) == 1 and isinstance(expr.args[1], (AppliedUndef, sym.Subs))')
         if U(sb.test) != want_test or sb.orelse:
             fail(sb, 'unexpected test of the DiracDelta * function branch')
         b = sb.body
